@@ -5,7 +5,7 @@ import os, random, subprocess, time
 from . import vlib
 from .vlib import log
 
-UN = ["then", "uerr", "udone", "md", "dao", "uns", "tag", "src", "era", "iv", "dfr", "alc", "rtk", "lvt"]
+UN = ["then", "uerr", "udone", "md", "dao", "uns", "tag", "src", "era", "iv", "dfr", "alc", "rtk", "lvt", "mob"]
 BIN = ["lv", "le", "ld", "seq", "fin", "wa", "sw", "any"]
 
 
